@@ -5,7 +5,8 @@ import vlib, mapdrv
 
 def design_and_replay(run, tier):
     for mod, cfgq, cfgt in (("MC_AlnWriter", "MC_AlnWriter_quick", "MC_AlnWriter_thorough"),
-                            ("MC_RefIndex", "MC_RefIndex_quick", "MC_RefIndex_thorough")):
+                            ("MC_RefIndex", "MC_RefIndex_quick", "MC_RefIndex_thorough"),
+                            ("MC_MapCompose", "MC_MapCompose_quick", "MC_MapCompose")):
         d = vlib.design_check(mod, cfgq if tier == "quick" else cfgt, "c04-" + mod, workers=8, timeout=3000, want_replay=True)
         run.add_design(d)
         verdicts = vlib.skav_parallel("replay", d["replay"], jobs=12)
@@ -21,12 +22,17 @@ def design_and_replay(run, tier):
                     run.nontriv(["aln", beh["contigs"], beh["writes"], beh["mask_ambig"], beh["repeats"]])
                 elif beh["kind"] == "refidx" and beh["repeats"]:
                     run.nontriv(["refidx", beh["contigs"], beh["rc"]])
+                elif beh["kind"] == "map1" and (beh["ambig_mask"] or beh["repeat_mask"] or 45 in beh["aln"]):
+                    run.nontriv(["map1", beh["contigs"], beh["table"]["rows"], beh["ambig_mask"], beh["repeat_mask"], beh["rc"]])
         run.drift += ndrift
         run.sample({"replayed_behaviour": d["replay"][len(d["replay"]) // 2]}, limit=2)
 
 
 def run(run, tier, seed):
-    run.rule = ("design: MC_AlnWriter - for every contig shape of the set (1-3 contigs, lengths 0..9 incl. contigs without "
+    run.rule = ("design: MC_MapCompose - every two-contig reference over {A,C} (second contig possibly empty or shorter than k) x the "
+                "reference itself or with one substitution (G or the code R) / one deleted base as the sample x strand mode x mask flags: the "
+                "composition index order + strand correction + incremental writer + repeat loop + finalise = declarative MappedAln; every "
+                "scenario replayed through RefSka::new + map + write_aln (the printed row must be that alignment); MC_AlnWriter - for every contig shape of the set (1-3 contigs, lengths 0..9 incl. contigs without "
                 "k-mers) every ordered subset of mapped centres is written through the code-shaped writer and must equal the "
                 "union-of-windows definition (+-ambig mask, +-repeat mask); MC_RefIndex - the repeat-coordinate loop = the "
                 "declarative coordinate set for every 3-contig reference of its universe (middle contig shorter than k); all "
